@@ -500,6 +500,12 @@ def PVal.isAbs : PVal → Bool
   | .path p => p.abs
   | _ => false
 
+/-- the attribute as an operand of `os.path.join` (a placeholder is a one-segment relative name) -/
+def PVal.asPath : PVal → Option Path
+  | .null => none
+  | .ph s => some { abs := false, segs := [s] }
+  | .path p => some p
+
 /-- `os.path.join(a, b)` -/
 def Path.join (a b : Path) : Path := if b.abs then b else { abs := a.abs, segs := a.segs ++ b.segs }
 
@@ -526,15 +532,17 @@ def headStartsWith (p : Path) (pre : Str) : Bool :=
 /-- `v.startswith("$PROD_") or v.startswith("$UPS_")` -/
 def isMacroPath (p : Path) : Bool := headStartsWith p mPROD_ || headStartsWith p mUPS_
 
-/-- `re.sub(r"\$FLAVOR\b", flavor, s)` inside one segment -/
-def substFlavor (flavor : Str) : Str → Str
-  | [] => []
-  | c :: r =>
+/-- `re.sub(r"\$FLAVOR\b", flavor, s)` inside one segment; the first argument counts characters still to be
+skipped after a match (so that the recursion is structural) -/
+def substFlavorAux (flavor : Str) : Nat → Str → Str
+  | _, [] => []
+  | n + 1, _ :: r => substFlavorAux flavor n r
+  | 0, c :: r =>
     if c = 36 && mFLAVOR.tail.isPrefixOf r && !(match r.drop 6 with | d :: _ => isWord d | [] => false)
-    then flavor ++ substFlavor flavor (r.drop 6)   -- `r.drop 6` is shorter than `c :: r`
-    else c :: substFlavor flavor r
-termination_by s => s.length
-decreasing_by all_goals simp_wf <;> omega
+    then flavor ++ substFlavorAux flavor 6 r
+    else c :: substFlavorAux flavor 0 r
+
+def substFlavor (flavor : Str) (s : Str) : Str := substFlavorAux flavor 0 s
 
 /-- `re.sub(r"^\$NAME\b", repl, v)`: the macro must be the whole first segment of a relative path -/
 def substHead (name : Str) (repl : Option Path) (v : Path) : Path :=
@@ -789,13 +797,10 @@ def trimKey (ex : Path → Bool) (trimDir : Option Path) (i : PInfo) (k : PKey) 
         if k = .table then
           let dirName : Option Path := match i.productDir with
             | some pv => if pv.truthy then
-                (match pv.toStr with
-                 | some s =>
-                   let d := Path.ofStr s
-                   match i.upsDir with
-                   | some u => (match u.toStr with | some us => some (d.join (Path.ofStr us)) | none => some d)
-                   | none => some d
-                 | none => none)
+                (match pv.asPath, i.upsDir with
+                 | some d, some u => (match u.asPath with | some up => some (d.join up) | none => some d)
+                 | some d, none => some d
+                 | none, _ => none)
               else none
             | none => none
           match dirName with
@@ -840,36 +845,48 @@ def stamp (old : Option Info) (who now : Str) : Info :=
     else { declarer := .val who, declared := .val now }
   | none => { declarer := .val who, declared := .val now }
 
-/-- `Database.declare(product)` on the version record: canonicalise, `addFlavor`, choose `trimDir`, trim every
-block, hand the record to the printer.  `rec` is what `VersionFile(vfile, name, version)` read (empty when the
-file does not exist). -/
-def declareRec (ex : Path → Bool) (who now : Str) (vr : VRec) (p : Prod) : Except Err VRec :=
+/-- the path part of `Database.declare(product)`: canonicalise, `addFlavor`, choose `trimDir`, trim the new
+block.  Returns the canonicalised product and the block's path entries as they are written. -/
+def declarePaths (ex : Path → Bool) (p : Prod) (old : Option PInfo) : Except Err (Prod × PInfo) :=
   match canonicalizePaths p with
   | .error e => .error e
   | .ok c =>
   if !c.table.truthy then .error .unmodelled else
-  let old := dget vr.flavors c.flavor
-  let pi := addFlavorPaths (old.map Info.paths) c.dir c.table c.upsDir
-  let info := (stamp old who now).withPaths pi
-  let flavors := dset vr.flavors c.flavor info
+  let pi := addFlavorPaths old c.dir c.table c.upsDir
   if !c.dir.truthy then .error .unbound else
   let root := stackRoot c.db
   let trimDir := if ex root then some root else none
-  let flavors := flavors.map fun (f, i) =>
-    (f, i.withPaths (trimInfo ex trimDir (if f = c.flavor then orderNew else orderFile) i.paths))
-  .ok { vr with flavors := flavors }
+  .ok (c, trimInfo ex trimDir orderNew pi)
 
-/-- `VersionFile.makeProduct(flavor, eupsPathDir, dbpath)` = `Product(...)` + `resolvePaths()` -/
+/-- `Database.declare(product)` on the version record.  `vr` is what `VersionFile(vfile, name, version)` read
+(empty when the file does not exist); the blocks of the other flavors go through the trimming loop too. -/
+def declareRec (ex : Path → Bool) (who now : Str) (vr : VRec) (p : Prod) : Except Err VRec :=
+  let old := dget vr.flavors p.flavor
+  match declarePaths ex p (old.map Info.paths) with
+  | .error e => .error e
+  | .ok (c, pi) =>
+  let root := stackRoot c.db
+  let trimDir := if ex root then some root else none
+  let others := vr.flavors.map fun (f, i) =>
+    (f, if f = p.flavor then i else i.withPaths (trimInfo ex trimDir orderFile i.paths))
+  .ok { vr with flavors := dset others p.flavor ((stamp old who now).withPaths pi) }
+
+/-- `Product(name, version, flavor, dir, table, db=db, ups_dir=ups_dir).resolvePaths()` from the path entries
+of a block -/
+def resolveInfo (ex : Path → Bool) (name version flavor : Str) (db : Path) (i : PInfo) : Except Err Prod :=
+  let get (o : Option PVal) : PVal := match o with | some v => v | none => .null
+  let p : Prod := { name := name, version := version, flavor := flavor, dir := get i.productDir,
+                    table := get i.tableFile, upsDir := get i.upsDir, db := db }
+  resolvePaths ex (p.init ex)
+
+/-- `VersionFile.makeProduct(flavor, eupsPathDir, dbpath)` -/
 def makeProduct (ex : Path → Bool) (vr : VRec) (flavor : Str) (db : Path) : Except Err Prod :=
   match dget vr.flavors flavor with
   | none => .error .notFound
   | some i =>
     let version := strOf vr.version
     if sLOCAL.isPrefixOf version then .error .unmodelled else
-    let p : Prod := { name := strOf vr.name, version := version, flavor := flavor,
-                      dir := PVal.ofOpt i.productDir.get, table := PVal.ofOpt i.tableFile.get,
-                      upsDir := PVal.ofOpt i.upsDir.get, db := db }
-    resolvePaths ex (p.init ex)
+    resolveInfo ex (strOf vr.name) version flavor db i.paths
 
 /-- `Product.extraProductDir()` -/
 def extraDir (p : Prod) : Path := p.db.join (Path.rel [p.flavor, p.name, p.version])
@@ -920,5 +937,86 @@ def declaredProd (root : List Str) (name version flavor : Str) (d : DirPl) (t : 
     | .interned => (.path (tableName name), .path (Path.rel [mUPS_DB, flavor, name, version, sUps]))
     | .none => (.ph sNone, .null)
   { name := name, version := version, flavor := flavor, dir := d.at root, table := table, upsDir := upsDir, db := db }
+
+
+/-- a path segment a user can supply: non-empty, no `/`, no `$` -/
+def SegOK (s : Str) : Prop := s ≠ [] ∧ 47 ∉ s ∧ 36 ∉ s
+def SegsOK (l : List Str) : Prop := ∀ s ∈ l, SegOK s
+instance (s : Str) : Decidable (SegOK s) := by unfold SegOK; infer_instance
+instance (l : List Str) : Decidable (SegsOK l) := by unfold SegsOK; infer_instance
+
+/-- what the record must contain for a placement: no trace of `root` for anything inside the stack -/
+def canonInfo (name version flavor : Str) (d : DirPl) (t : TabPl) : PInfo :=
+  let pd : PVal := match d with
+    | .inside rel => .path (Path.rel rel)
+    | .outside s => .path (absP s)
+    | .none => .ph sNone
+  let (tf, ups) : PVal × PVal := match t with
+    | .inUps => (.path (tableName name), .path (Path.rel [sUps]))
+    | .absInside trel => (.path (Path.rel trel), .path (Path.rel [sUps]))
+    | .absOutside s => (.path (absP s), .path (Path.rel [sUps]))
+    | .interned => (.path (tableName name), .path (Path.rel [mUPS_DB, flavor, name, version, sUps]))
+    | .none => (.ph sNone, .ph sNone)
+  { productDir := some pd, tableFile := some tf, upsDir := some ups }
+
+/-- Side conditions under which a placement is one of those the property lists. -/
+structure PlaceOK (root : List Str) (name version flavor : Str) (d : DirPl) (t : TabPl) : Prop where
+  root_ok : SegsOK root
+  name_ok : SegOK (name ++ sDotTable)
+  name_ok' : SegOK name
+  flavor_ok : SegOK flavor
+  version_ok : SegOK version
+  /-- the directory: inside = a non-empty `$`-free relative part that is not the database itself;
+      outside = neither below the stack nor an ancestor of it -/
+  dir_ok : match d with
+    | .inside rel => SegsOK rel ∧ rel ≠ [] ∧ rel.head? ≠ some sUpsDb
+    | .outside s => SegsOK s ∧ root.isPrefixOf s = false ∧ s.isPrefixOf root = false
+    | .none => True
+  /-- the table file: "in dir/ups" needs a directory; "absolute elsewhere" means not in `dir/ups`, not in the
+      database, and (outside the stack) not inside the product directory -/
+  tab_ok : match t with
+    | .inUps => d ≠ .none
+    | .absInside trel => SegsOK trel ∧ trel ≠ [] ∧ trel.head? ≠ some sUpsDb ∧
+        (match d with
+         | .inside rel => (rel ++ [sUps]).isPrefixOf trel = false
+         | .outside _ => True
+         | .none => [sNone, sUps].isPrefixOf trel = false)
+    | .absOutside s => SegsOK s ∧ root.isPrefixOf s = false ∧ s.isPrefixOf root = false ∧
+        (match d with
+         | .outside ds => ds.isPrefixOf s = false
+         | _ => True)
+    | .interned => True
+    | .none => True
+
+/-- File-system facts at declaration time: the stack exists, and a table file given by an absolute path inside
+the stack exists (`Eups.declare` refuses a table file that does not). -/
+def DeclEx (ex : Path → Bool) (root : List Str) (name version flavor : Str) (d : DirPl) (t : TabPl) : Prop :=
+  ex (absP root) = true ∧
+  (t ≠ .interned → ∀ tp, TabPl.at root name version flavor d t = .path tp → ex tp = true)
+
+/-- File-system facts at the reader's side: the table file is where the property says it must be, and — for a
+table file recorded relative to the stack — nothing of the same relative name sits in the product's `ups`
+directory (`resolvePaths` probes `ups_dir/<table>` before `root/<table>`). -/
+def ReadEx (ex' : Path → Bool) (root' : List Str) (name version flavor : Str) (d : DirPl) (t : TabPl) : Prop :=
+  (∀ tp, TabPl.at root' name version flavor d t = .path tp → ex' tp = true) ∧
+  (match t with
+   | .absInside trel =>
+     (match d with
+      | .inside rel => ex' (absP (root' ++ rel ++ [sUps] ++ trel)) = false
+      | .outside s => ex' (absP (s ++ [sUps] ++ trel)) = false
+      | .none => ex' (Path.rel ([sUps] ++ trel)) = false)
+   | _ => True)
+
+
+/-- declare at `root` (no earlier block for the flavor), then read with the stack at `root'`: the directory and
+the table file a reader reports -/
+def readBack (ex ex' : Path → Bool) (root root' : List Str) (name version flavor : Str) (d : DirPl) (t : TabPl) :
+    Except Err (PVal × PVal) :=
+  match declarePaths ex (declaredProd root name version flavor d t) none with
+  | .error e => .error e
+  | .ok (_, pi) =>
+    match resolveInfo ex' name version flavor (absP (root' ++ [sUpsDb])) pi with
+    | .error e => .error e
+    | .ok p => .ok (p.dir, p.table)
 
 end EupsModel.Record
